@@ -27,7 +27,7 @@ ASSUMPTIONS = [
     "float noise moved the raw ratio across the 1.1 clamp edge; the edge at 1.0 is continuous",
 ]
 REQUIRED = {"all": ["salted_objects", "pairs:respell", "pairs:omega_respell", "pairs:reverse", "pairs:invert", "nontrivial_kappa",
-                    "nontrivial_scd", "nontrivial_omega", "every_residue_seen", "longer_than_400"]}
+                    "nontrivial_scd", "nontrivial_omega", "every_residue_seen", "longer_than_400", "delta_max_arrangements_as_input"]}
 LP = {"quick": 8, "thorough": 10}
 NRANDOM = {"quick": 400, "thorough": 5000}
 HI = {"quick": 120, "thorough": 300}
@@ -64,6 +64,14 @@ def cases(tier, seed):
                 pat = [1] * few + [-1] * many + [0] * z
                 rng.shuffle(pat)
                 yield {"k": "seq", "s": gen.spell(rng, pat), "o": rng.randrange(1 << 30)}
+    # the delta-max arrangement of a composition itself (and so its mirror and charge inverse) as input: ratios of exactly 1
+    rngo = gen.sub_rng(0, ID, "optimal")
+    for j in range(36 if tier == "quick" else 200):
+        z = rngo.choice([0, rngo.randint(1, 17), 18, rngo.randint(18, 30)])
+        p_, n_ = rngo.randint(1, 9), rngo.randint(1, 9)
+        best = M.dmax_family(p_, n_, z)[1]
+        if best:
+            yield {"k": "seq", "s": gen.spell(rngo, list(best)), "o": rngo.randrange(1 << 30), "optimal": 1}
     yield {"k": "sweep", "count": 330 if tier == "quick" else 1200}
     for n in (450, 700) if tier == "quick" else (450, 700, 1001, 1300):
         yield {"k": "seq", "s": gen.rand_seq(rng, "idp", lo=n, hi=n)[:n], "o": rng.randrange(1 << 30)}
@@ -154,6 +162,8 @@ def judge(case, rep, S):
         base = case["s"]
         rng = gen.sub_rng(case["o"], ID)
         heavy = True
+    if case.get("optimal"):
+        rep.cnt("delta_max_arrangements_as_input")
     _seen.update(base)
     if len(_seen) == 20:
         rep.cnt("every_residue_seen")
